@@ -1,0 +1,35 @@
+//go:build verif
+
+// Contracts for package keys (assumed: the signature schemes are uninterpreted, T-CRYPTO).
+// Comment-only file, read by /verif/govc.
+
+package keys
+
+// pkAddr(kt, data): the address derived from the public key (kt, data)
+// pkVerify(kt, data, msg, sig): sig is a valid signature of msg under that key
+//@ ghost func pkAddr(kt int, data bytes) string
+//@ ghost func pkVerify(kt int, data bytes, msg string, sig string) bool
+
+// the key a handler was built from
+//@ model hkt(PublicKeyHandler) int
+//@ model hdata(PublicKeyHandler) bytes
+
+//@ assume func (PublicKey).GetHandler
+//@   modifies nothing
+//@   ensures err == nil ==> result != nil && hkt(result) == pubKey.KeyType && hdata(result) == pubKey.Data
+//@   ensures err != nil ==> result == nil
+
+//@ interface PublicKeyHandler
+//@   method Address
+//@     modifies nothing
+//@     ensures str(result) == pkAddr(hkt(self), hdata(self))
+//@   method VerifyBytes
+//@     modifies nothing
+//@     ensures result == pkVerify(hkt(self), hdata(self), str(arg0), str(arg1))
+
+// addrStr: the textual form of an address (0lt-prefixed hex) is injective in the address bytes
+//@ ghost func addrStr(a string) string
+//@ ghost func addrOfStr(s string) string
+//@ assume func (Address).String
+//@   modifies nothing
+//@   ensures result == addrStr(str(a)) && addrOfStr(result) == str(a)
